@@ -30,7 +30,7 @@ InstrSem(f, in, tbls, active, filtered) ==
        IF fn.k = "const" /\ ConstType(fn.v) # "none" THEN
           IF ~NameOK(dst) THEN ErrFrame
           ELSE IF filtered THEN Unspec            \* see DESIGN 7 (D15): constants ignore the filter
-          ELSE SetColumn(f, PlainCol(dst, ConstType(fn.v), [r \in 1..f.n |-> fn.v.c]))
+          ELSE SetColumn(f, PlainCol(dst, ConstType(fn.v), [r \in 1..f.n |-> Unx(fn.v.c)]))
        ELSE IF fn.k = "col" THEN (IF filtered THEN Unspec ELSE CopySem(f, dst, fn.v.s))
        ELSE IF fn.k = "fn0" THEN
           IF ~NameOK(dst) THEN ErrFrame
@@ -123,7 +123,7 @@ ExprVal(f, e, ctx, tbls) ==
                       ELSE EV("err")
     [] e.k = "const" -> IF ConstType(e.v) \in {"none"} /\ e.v.t # "nil" THEN EV("err")
                         ELSE [st |-> "ok", typ |-> IF e.v.t = "nil" THEN "string" ELSE ConstType(e.v),
-                              cells |-> [r \in 1..f.n |-> e.v.c]]
+                              cells |-> [r \in 1..f.n |-> Unx(e.v.c)]]
     [] e.k = "val" -> ExprVal(f, e.args[1], ctx, tbls)
     [] e.k = "call" ->
          IF Len(e.args) = 0 THEN EV("err")
